@@ -53,6 +53,8 @@ def run(rep, tier, seed):
     for k, name in enumerate(ROUTINES):
         errs = H[k].build(groups, native=False)
         for g in groups:
+            if g == "SO3" and name != "biinvariant" and tier == "quick":
+                continue        # (quaternion group: the Jacobian-weighted variants are in the thorough tier only - minutes per routine)
             if g in errs:
                 lines = [l for l in errs[g].output.splitlines() if "error" in l][:4]
                 rep.fail("C16/%s/%s/instantiates" % (g, FN[name]), "BUILD", "g++", {"compiler_output": "\n".join(lines)},
